@@ -51,6 +51,29 @@ Definition regenerated_glue_gives_the_model_value : Prop :=
   forall (A : Type) (NA : Num A) (E : engine A) (U : universe) (P : params A) (g : graph) (opts : options) (st : state A) out,
     network_step E U P g opts st = Ok out -> gen_network_step E U P g opts st = Ok out.
 
+(* the default values of the parameters of the translated methods, as the element-level API documents them
+   (Link.step_dynamics clamps speeds by default - unlike Network.step, whose options all default to False: F5) *)
+Definition expected_defaults : list (string * string) :=
+  [("CongestedDestination.get_density.engine", "None");
+   ("Destination.get_density.engine", "None");
+   ("Link.get_flow.engine", "None");
+   ("Link.step_dynamics.delta", "None");
+   ("Link.step_dynamics.engine", "None");
+   ("Link.step_dynamics.phi", "None");
+   ("Link.step_dynamics.positive_next_density", "False");
+   ("Link.step_dynamics.positive_next_speed", "True");
+   ("MainstreamOrigin.get_flow.engine", "None");
+   ("MainstreamOrigin.step_dynamics.engine", "None");
+   ("MainstreamOrigin.step_dynamics.positive_next_queue", "False");
+   ("MeteredOnRamp.get_flow.engine", "None");
+   ("MeteredOnRamp.step_dynamics.engine", "None");
+   ("MeteredOnRamp.step_dynamics.positive_next_queue", "False");
+   ("Node.get_downstream_density.engine", "None");
+   ("Node.get_upstream_speed_and_flow.engine", "None");
+   ("Origin.get_flow.engine", "None");
+   ("SimplifiedMeteredOnRamp.get_flow.engine", "None")]%string.
+Definition element_level_defaults_as_documented : Prop := gen_defaults = expected_defaults.
+
 (* C01's statement with the REGENERATED glue in the place of the hand-written model: on every valid network the
    definitions translated from blocks/*.py, run over the engine definitions translated from engines/*.py, return
    the METANET values of Spec.v (link_result_ok / origin_result_ok are C01's per-segment and per-queue clauses) *)
